@@ -1,12 +1,13 @@
 (* C11 -- QS domain: callbacks run once, by the owner's run(), only after a full grace period, the
    node is not touched after its callback started, and no call blocks or stops on valid use.
    Statements only; proofs are in Qs/QsWoProofs.v, Qs/QsWoGen.v (whole-operation granularity) and
-   Qs/QsFgProofs.v, Qs/QsFgThms.v, Qs/QsFgGen.v (one atomic access or mutex call per step).
+   Qs/QsFgProofs.v, Qs/QsFgThms.v, Qs/QsFgGen.v (one atomic access or mutex call per step),
+   Qs/QsHbProofs.v, Qs/QsHbGen.v (vector clocks).
    Model: Qs/QsModel.v; source-derived facts: Gen/QsOrders.v (translator/gen_qs.py). *)
 From Coq Require Import List NArith Bool Arith.
 Import ListNotations.
 From FV Require Import Qs.QsTypes Qs.QsModel Qs.QsFgModel Qs.QsGenOk Qs.QsWoProofs Qs.QsWoLive Qs.QsWoGen
-  Qs.QsFgProofs Qs.QsFgThms Qs.QsFgGen.
+  Qs.QsFgProofs Qs.QsFgThms Qs.QsFgGen Qs.QsHbProofs Qs.QsHbGen.
 Local Open Scope N_scope.
 
 (* ---- generated obligations (recomputed from the current qs.hpp on every run) ---------------- *)
@@ -212,6 +213,40 @@ Proof.
   - repeat constructor; cbn; intuition discriminate.
 Qed.
 
+(* Happens-before (fine-grained model + vector clocks driven by the memory orders of the current
+   source, Qs/QsFgModel.v [gen_h_step]; release store sets the location's clock, relaxed store clears it,
+   an RMW continues the release sequence, acquire load/RMW joins it, mutex unlock/lock likewise).
+   [hleft h n X = Some k]: agent X left waiting(n) -- by entering quiescent_state() or offline() -- when
+   its own clock component was k.  At the callback of n the calling thread's clock covers k: everything
+   X did before it entered that call happens-before the callback.  Needs exactly the orders of
+   C11_gen_orders_sufficient (acq_rel on the ack in quiescent_state, acquire on the ack in offline,
+   release on every counter store, acquire on the counter load of run()). *)
+Theorem C11_hb :
+  forall U nown scripts sched h tr, NoDup U -> few U -> scripts_ok U nown scripts ->
+    gen_h_run sched (h0 scripts) [] = (h, tr) ->
+    forall t h' evs n t', gen_h_step t h = (h', evs) -> In (WCb n t') evs ->
+    forall X k, hleft h n X = Some k -> (k <= vc (hk h') t' X)%nat.
+Proof.
+  intros U nown scripts sched h tr ND HB Hok Hrun t h' evs n t'.
+  apply (gen_hb U nown scripts ND HB Hok sched h tr t h' evs n t' Hrun).
+Qed.
+Print Assumptions C11_hb.
+
+(* non-vacuity: two threads under a round-robin scheduler; thread 1 is online when thread 0 registers
+   node 0 and leaves waiting(0) at its local time 16; when thread 0's run() invokes the callback it
+   knows thread 1 up to time 26 *)
+Definition ex_hb_scripts (t : tid) : list call :=
+  match t with
+  | 0%nat => [COnline; CQsCall; CQsCall; CAwait 0; CQsCall; CQsCall; CQsCall; CQsCall; CQsCall; CQsCall; CRun]
+  | 1%nat => [COnline; CQsCall; CQsCall; CQsCall; CQsCall; CQsCall; CQsCall; CQsCall; CQsCall]
+  | _ => [] end.
+
+Example C11_example_hb :
+  let '(h, _) := gen_h_run (round_robin 44) (h0 ex_hb_scripts) [] in
+  let '(h', evs) := gen_h_step 0%nat h in
+  In (WCb 0 0) evs /\ hleft h 0%nat 1%nat = Some 16%nat /\ vc (hk h') 0%nat 1%nat = 26%nat.
+Proof. vm_compute. repeat split. tauto. Qed.
+
 (* Liveness (whole-operation granularity).  A round = a sequence of calls, all returning, in which every
    agent that is online at its start calls quiescent_state() or offline(), with somebody online at
    its start; agents may join and leave inside a round.  After k rounds the counter has advanced by
@@ -240,16 +275,8 @@ Print Assumptions C11_run_fires_wholeop.
    await_barrier / quiescent_barrier retry only when [desired] grew, which is bounded by the target), and
    the round theorem above for interleaved calls.
 
-   C11_hb (vector clocks, Qs/QsFgModel.v [gen_h_step]):
-     forall U nown scripts sched h tr, NoDup U -> few U -> scripts_ok U nown scripts ->
-       gen_h_run sched (h0 scripts) [] = (h, tr) ->
-       forall t h' evs n t', gen_h_step t h = (h', evs) -> In (WCb n t') evs ->
-       forall X k, hleft h n X = Some k -> (k <= vc (hk h') t X)%nat.
-   i.e. everything an agent did before it entered the quiescent_state()/offline() call that removed it
-   from waiting(n) happens-before the callback.  Evidence instead of a proof: the obligation
-   C11_gen_orders_sufficient, a randomised check of exactly this statement on the vector-clock model
-   (driver mode "hb"; it fails with the memory orders of the source before the D06 and D06b fixes), and
-   the TSan stress leg on the real code. *)
+   C11_hb for the return of quiescent_barrier() (the grace-period part is C11_grace_period; the
+   happens-before part is proved for callbacks only, see C11_hb below). *)
 
 (* ---- non-vacuity (whole-operation) ---- *)
 
